@@ -92,7 +92,8 @@ static ASMJIT_NOINLINE Error ArenaVector_reserve_with_byte_size(ArenaVectorBase&
   }
 
   self._data = new_data;
-  self._capacity = uint32_t(allocated_capacity);
+  // `_capacity` is 32-bit - never report more than it can hold (the block itself may be larger).
+  self._capacity = uint32_t(Support::min<size_t>(allocated_capacity, size_t(0xFFFFFFFFu)));
 
   return Error::kOk;
 }
